@@ -269,12 +269,18 @@ func (g *srvGen) opClockWhileQueued() {
 	})
 	_, err := s.E.S.VerifAuthorize(ea)
 	server.VerifSetPoint("persist:auth-written", nil)
+	wasBanned := false
+	for _, b := range snap.Bans {
+		if b == ea.ShortID {
+			wasBanned = true
+		}
+	}
 	obsA := "new"
 	switch {
 	case err != nil:
 		obsA = "refused"
 		for _, b := range s.E.S.VerifSnapshot().Bans {
-			if b == ea.ShortID {
+			if b == ea.ShortID && !wasBanned { // banned by THIS order (an id banned earlier is just refused)
 				obsA = "banned"
 			}
 		}
@@ -512,8 +518,14 @@ func (g *srvGen) opSlowSection() {
 		return
 	}
 	if obsA == "refused" {
-		for _, b := range s.E.S.VerifSnapshot().Bans {
+		wasBanned := false
+		for _, b := range snap.Bans {
 			if b == ea.ShortID {
+				wasBanned = true
+			}
+		}
+		for _, b := range s.E.S.VerifSnapshot().Bans {
+			if b == ea.ShortID && !wasBanned {
 				obsA = "banned"
 			}
 		}
